@@ -282,6 +282,13 @@ func eval(c Case) (f *pbt.Fail) {
 			}
 		}
 	}
+	// the average hash reads the luminance of the first 8 x 8 pixels through At(): pixel for pixel the packed image at the
+	// origin has the same Y, Cb and Cr, hence the same colours, hence exactly the same hash
+	h1, e1 := imagehash.NewAHash(imgA)
+	h2, e2 := imagehash.NewAHash(flat)
+	if e1 != nil || e2 != nil || h1 != h2 {
+		return pbt.Failf("ahash", "average hash of a %s image is %016x (err %v), the same pixels as a packed 4:4:4 image at the origin hash to %016x (err %v)", layout(c), uint64(h1), e1, uint64(h2), e2)
+	}
 	return nil
 }
 
